@@ -1,6 +1,10 @@
 package main
 
 import (
+	"fmt"
+	"os"
+	"path/filepath"
+	"strings"
 	"time"
 
 	"verif.local/simgen"
@@ -127,6 +131,45 @@ func init() {
 		Real: []string{"tool/imp.go (NewImporter, Importer.PkgHash, dirHash, canCl) compiled from the working tree (not instrumented: sequential)", "goplus/mod module lookup, a real directory on tmpfs"},
 		Stubbed: []string{"the clock that stamps files (os.Chtimes from a simulated clock with granularity knob)", "the history of file-system operations (generated)"},
 		Assumptions: []string{"regular files only: no symlinks, devices, or names with control characters", "class-file extensions registered through go.mod are not exercised (the module registers none)", "only consecutive states are compared, as the statement says"},
+	})
+	c08pkgs := map[string]simgen.Options{}
+	for _, p := range []string{"/cl", "/parser", "/ast", "/ast/fromgo", "/token", "/scanner", "/printer", "/cl/internal/typesalias"} {
+		c08pkgs[xgo+p] = simgen.Options{Maps: true}
+	}
+	for _, p := range []string{"", "/internal", "/internal/go/printer", "/internal/go/format", "/typeutil", "/packages", "/packages/cache", "/internal/typeparams", "/internal/typesalias"} {
+		c08pkgs["github.com/goplus/gogen"+p] = simgen.Options{Maps: true}
+	}
+	register(&spec{
+		ID: "C08", Title: "Compilation output is deterministic", Level: "exploration",
+		Instrument: c08pkgs,
+		Harness:    []harnessCopy{{"c08", "zsim/c08"}},
+		TestPkg:    "zsim/c08", TestName: "TestZSimC08",
+		QuickRuns: 1200, ThoroughRuns: 100000, QuickBudget: 5 * time.Minute, ThoroughBudget: 45 * time.Minute,
+		Chunk: 75,
+		Prepare: func(sc *scratch, env []string) error {
+			// gogen is part of the compile path: put a writable copy into the scratch tree
+			out, err := run(sc.repo, env, "go1.26.8", "list", "-m", "-f", "{{.Dir}}", "github.com/goplus/gogen")
+			if err != nil {
+				return fmt.Errorf("locating gogen: %v\n%s", err, out)
+			}
+			src := strings.TrimSpace(out)
+			dst := filepath.Join(sc.repo, "zdeps", "gogen")
+			os.MkdirAll(filepath.Dir(dst), 0755)
+			if out, err := run("/", nil, "cp", "-r", src, dst); err != nil {
+				return fmt.Errorf("copying gogen: %v\n%s", err, out)
+			}
+			if out, err := run("/", nil, "chmod", "-R", "u+w", dst); err != nil {
+				return fmt.Errorf("chmod: %v\n%s", err, out)
+			}
+			if out, err := run(sc.repo, env, "go1.26.8", "mod", "edit", "-replace=github.com/goplus/gogen=./zdeps/gogen"); err != nil {
+				return fmt.Errorf("go mod edit: %v\n%s", err, out)
+			}
+			return nil
+		},
+		Rule: "each run takes a package — in 80% of runs a generated one (1-3 XGo files and 0-3 Go files holding 4-13 groups of mutually referring types, methods, functions, constants, variables and overload sets, plus 0-4 seeded errors: redeclarations across files, undefined names, type errors), otherwise one of the repository's class-file projects (cl/_testspx/*) — compiles it canonically (sorted listing, identity map orders, fresh importer and file set) and then 2-4 more times in the same process with a seeded permutation at every executed range-over-map site of the compile path (all sites, or a seeded quarter of them), a shuffled directory listing, and either a shared or a fresh importer/file set. Non-trivial = at least one non-identity permutation was actually consumed; distinct = distinct (listing/output log hash, workload hash) pairs",
+		Real: []string{"parser.ParseFSDir, cl.NewPackage, gogen (Package.WriteTo) and everything below them, compiled from the working tree (gogen from the module cache copy) with range-over-map rewritten to go through detmap", "go/types, go/ast, go/printer"},
+		Stubbed: []string{"map iteration order at every rewritten range site (seeded permutation of a canonically ordered key snapshot)", "the directory listing (in-memory file system with seeded order)"},
+		Assumptions: []string{"range sites over maps whose keys have no address-free order (pointer keys) keep the runtime's order and are reported as uncontrolled", "packages whose files fail to PARSE are excluded (ParseFSDir documents that it returns the first error encountered)", "the standard library's own map iterations (go/types) are not controlled"},
 	})
 	register(&spec{
 		ID: "C26", Title: "xgo fmt never loses a file at any crash point and keeps its mode", Level: "fault_enumeration",
